@@ -667,6 +667,9 @@ func RemoveAliases(indexName string, aliases []string, orgid int64) error {
 	for i := 0; i < alLen; i++ {
 		delete(currentAliases, aliases[i])
 		delete(aliasToIndexNames[orgid][aliases[i]], indexName)
+		if indexNames, ok := aliasToIndexNames[orgid][aliases[i]]; ok && len(indexNames) == 0 {
+			delete(aliasToIndexNames[orgid], aliases[i])
+		}
 	}
 
 	if len(currentAliases) == 0 {
